@@ -352,6 +352,11 @@ func checkC09(run *mon.Run, rng *mon.Rand, thorough bool) {
 				w.opDiscarded()
 			case x < 96:
 				w.opStaleReplay()
+				if r.Chance(25) {
+					ok := migrateL2(e)
+					w.log = append(w.log, fmt.Sprintf("chain exported and restarted from its genesis -> imported=%v", ok))
+					w.invariants()
+				}
 			default:
 				e.L2.NextBlock(1e9)
 			}
